@@ -24,7 +24,7 @@ EXPLANATION = (
     "C08.d: no in-place store below _perform_timestep targets the weather matrix or a numpy view of it (slices and "
     "boolean-mask selections are distinguished by the view/copy table), so every season reads the weather the single-season run reads. "
     "C08.e: the thermal-time calendar of a SwitchGDD crop must not be an aggregate over the seasons of the window (reported: prepare_gdd's "
-    "mean / median over all seasons - known finding F19, the documented behaviour of the conversion). C08.f (sibling agreement): the CO2 adjustment is computed by compute_variables for the first season and by the season reset for later ones; the defining expressions of its seven quantities are the same sets. C08.b also: the snapshot thini is taken from the final initial profile - no store to the water content (rebinding or in place) follows it in the initial-conditions routine (the groundwater adjustments come first). C08.g: the season reset reads the season's CO2 concentration from the yearly series by label (the year of the clock's step start), never by position - the series starts with the year of the simulation start, the seasons with the first planting date on or after it. C08.h: the ponding restored at a season start is computed from the in-season field management (access path), as in the initial conditions of a run that starts in season 0. NOT decided: bitwise equality of the two runs.")
+    "mean / median over all seasons - known finding F19, the documented behaviour of the conversion). C08.f (sibling agreement): the CO2 adjustment is computed by compute_variables for the first season and by the season reset for later ones; the defining expressions of its seven quantities are the same sets. C08.b also: the snapshot thini is taken from the final initial profile - no store to the water content (rebinding or in place) follows it in the initial-conditions routine (the groundwater adjustments come first). C08.g: the season reset reads the season's CO2 concentration from the yearly series by label (the year of the clock's step start), never by position - the series starts with the year of the simulation start, the seasons with the first planting date on or after it. C08.h: the ponding restored at a season start is computed from the in-season field management (access path), as in the initial conditions of a run that starts in season 0. C08.i: a latest harvest date derived from the first season's days to maturity while the days to maturity of thermal-time crops are re-derived per season (reported: known finding F43). NOT decided: bitwise equality of the two runs.")
 
 L = frozenset
 ST = ("state",)
@@ -50,8 +50,10 @@ def reset_summary(prog, chk):
     heap = {(ST, f): In(f) for f in fields}
     heap[(CK, "sim_off_season")] = Const(False)
     taint = {("h", ST, f): frozenset([f]) for f in fields}
+    # (interprocedural: the reset hands state to check_groundwater_table / start_under_water_table; what the restored water content
+    # depends on is decided inside them - e.g. the adjusted field capacity passed in is not used when a water table is present)
     it = Interp(prog, fi, domains=DOMAINS, param_vals={st_formal: Obj(ST), ck_formal: Obj(CK)}, init_heap=heap,
-                part_key="bound", taint=True, init_taint=taint, local_domains=local_literal_domains(fi),
+                part_key="bound", taint=True, init_taint=taint, local_domains=local_literal_domains(fi), interprocedural=True,
                 axioms=[("CO2ref", "#550", L("<"))]).run()
     exits = it.in_states.get(it.cfg.exit, [])
     if not exits:
@@ -196,8 +198,19 @@ def rule_a(chk, prog):
                 if p.startswith("STATE."):
                     written_elsewhere.add(p.split(".")[1].split("[")[0])
     # restored values may only depend on run constants
+    # run constants: state fields that nothing below the step, the time update or the reset ever stores (set once by the initial conditions)
+    stored_fields: Set[str] = set(written_elsewhere)
+    for key in sorted(roles.reached):
+        for st in stores(prog, prog.funcs[key], roles):
+            for p in st.paths:
+                if p.startswith("STATE."):
+                    stored_fields.add(p.split(".")[1].split("[")[0])
+    run_constants = {f for f in fields if f not in stored_fields}
+    chk.notes["state_run_constants"] = sorted(run_constants)
+    if "thini" not in run_constants:
+        chk.violation("C08.a", RESET_FN, "thini is a run constant", "the configured initial water content is stored to after initialisation", loc=prog.func(RESET_FN).loc())
     for f, d in sorted(deps.items()):
-        bad = sorted(x for x in d if x not in ("thini",))
+        bad = sorted(x for x in d if x not in run_constants)
         construct = f"reset value of {f}"
         if bad:
             chk.violation("C08.a", RESET_FN, construct, f"the value restored into {f} depends on previous-season state {bad}",
@@ -284,31 +297,82 @@ def rule_b(chk, prog):
                 if st.inplace and any(p.startswith("STATE.thini[") for p in st.paths):
                     chk.violation("C08.b", f"{fi.module}:{fi.qualname}", st.text, "in-place write to the configured initial water content",
                                   loc=fi.loc(st.node))
-    # the snapshot is taken from the *final* initial profile: after `thini = copy(th)` no store to th (rebinding or in place) is
-    # reachable in the same function - otherwise season 0 starts from a profile later seasons are not reset to
+    # The snapshot `thini` holds the water content *as requested*; what the water table of the day does to it (adjusted field capacity where
+    # field capacity was requested, saturation below a table inside the profile) is applied after the snapshot by one helper, and the season
+    # reset applies the same helper, with the depth of the season's first day, to the content it restores (F42: a snapshot taken after the
+    # adjustments restarts every later season under the first day's water table). Conversely nothing else may touch th after the snapshot.
     ir = init_roles(prog)
+    sr = step_roles(prog)
+    from ..rdef import flow_of
+    helpers = {}
     for key in sorted(ir.reached):
         fi = prog.funcs[key]
         snaps = [st for st in stores(prog, fi, ir) if st.kind == "attr" and st.field == "thini" and any(p == "STATE.thini" for p in st.paths)]
         if not snaps:
             continue
-        from ..rdef import flow_of
         flow = flow_of(fi)
+        cfg = flow.cfg
         writes = [st for st in stores(prog, fi, ir) if (st.kind == "attr" and st.field == "th" and any(p == "STATE.th" for p in st.paths))
                   or (st.inplace and any(p.startswith("STATE.th[") for p in st.paths))]
         for sn in snaps:
             k = flow.stmt_node.get(id(sn.node))
-            late = []
+            late, embedded = [], []
             for w in writes:
                 wk = flow.stmt_node.get(id(w.node)) or flow.node_of(w.node)
-                if k is not None and wk is not None and wk != k and flow.cfg.paths_exist_avoiding(k, wk, set()):
-                    late.append(w.text[:60])
-            construct = f"{sn.text[:60]} is the last word on the initial profile"
+                if k is None or wk is None or wk == k:
+                    continue
+                if cfg.paths_exist_avoiding(k, wk, set()):
+                    v = getattr(w.node, "value", None)
+                    h = prog.resolve_call(fi, v) if isinstance(v, ast.Call) else None
+                    if isinstance(w.node, ast.Assign) and hasattr(h, "key"):
+                        helpers.setdefault(h.key, []).append((fi, w.node))
+                    else:
+                        late.append(w.text[:60])
+                elif cfg.paths_exist_avoiding(wk, k, set()):
+                    # before the snapshot: must not already contain the water table of the first day
+                    v = getattr(w.node, "value", None)
+                    deps_ = {norm(cfg.nodes[t].ast) for t, l in cfg.transitive_control_deps(wk) if cfg.nodes[t].kind == "test"}
+                    if (v is not None and any(isinstance(x, ast.Attribute) and x.attr in ("th_fc_Adj", "z_gw") for x in ast.walk(v))) \
+                            or any("wt_in_soil" in d or "water_table" in d for d in deps_):
+                        embedded.append(w.text[:60])
+            construct = f"{sn.text[:60]} holds the content as requested"
             if late:
-                chk.violation("C08.b", f"{fi.module}:{fi.qualname}", construct, f"the water content is still modified after the snapshot ({'; '.join(sorted(set(late)))}): "
-                              "the first season starts from a profile that later seasons are not reset to", loc=fi.loc(sn.node))
+                chk.violation("C08.b", f"{fi.module}:{fi.qualname}", construct, f"the water content is still modified after the snapshot ({'; '.join(sorted(set(late)))}) by "
+                              "something the season reset cannot repeat: the first season starts from a profile that later seasons are not reset to", loc=fi.loc(sn.node))
+            elif embedded:
+                chk.violation("C08.b", f"{fi.module}:{fi.qualname}", construct, f"the snapshot is taken after the adjustment to the water table of the first simulated day "
+                              f"({'; '.join(sorted(set(embedded)))}): with a water table that changes over the run every later season restarts under the first day's table",
+                              loc=fi.loc(sn.node))
             else:
-                chk.ok("C08.b", f"{fi.module}:{fi.qualname}", construct, f"none of the {len(writes)} stores to th is reachable after it")
+                chk.ok("C08.b", f"{fi.module}:{fi.qualname}", construct, f"taken before the water-table adjustments; {len(writes)} stores to th examined")
+    # the reset repeats each helper on the content it restores
+    rs = prog.func(RESET_FN)
+    rflow = flow_of(rs)
+    rcfg = rflow.cfg
+    restores = [a for a in walk_no_nested(rs.node) if isinstance(a, ast.Assign) and isinstance(a.targets[0], ast.Attribute) and a.targets[0].attr == "th"
+                and any(isinstance(x, ast.Attribute) and x.attr == "thini" for x in ast.walk(a.value))]
+    for hkey, sites_ in sorted(helpers.items()):
+        hname = prog.funcs[hkey].name
+        construct = f"{hname}(...) applied to the restored water content"
+        calls = [a for a in walk_no_nested(rs.node) if isinstance(a, ast.Assign) and isinstance(a.targets[0], ast.Attribute) and a.targets[0].attr == "th"
+                 and isinstance(a.value, ast.Call) and getattr(prog.resolve_call(rs, a.value), "key", None) == hkey]
+        if not restores or not calls:
+            chk.violation("C08.b", RESET_FN, construct, f"the initial conditions adjust the requested water content with {hname} after taking the snapshot, but the season reset "
+                          "does not apply it to the content it restores: later seasons start without the water-table adjustment", loc=rs.loc())
+            continue
+        rn = rflow.stmt_node[id(restores[0])]
+        cn = rflow.stmt_node[id(calls[0])]
+        deps_ = {(norm(rcfg.nodes[t].ast), l) for t, l in rcfg.transitive_control_deps(cn) if rcfg.nodes[t].kind == "test"}
+        ic_fi, ic_node = sites_[0]
+        iflow = flow_of(ic_fi)
+        ideps = {(norm(iflow.cfg.nodes[t].ast).split(".")[-1], l) for t, l in iflow.cfg.transitive_control_deps(iflow.stmt_node[id(ic_node)]) if iflow.cfg.nodes[t].kind == "test"}
+        same_guard = {(t.split(".")[-1], l) for t, l in deps_ if "water_table" in t} == {(t, l) for t, l in ideps if "water_table" in t}
+        if rn in rcfg.dominators()[cn] and same_guard:
+            chk.ok("C08.b", RESET_FN, construct, "after the restore, under the same water-table test as in the initial conditions")
+        else:
+            chk.violation("C08.b", RESET_FN, construct, f"{hname} is not applied to the restored content under the same condition as in the initial conditions "
+                          "(restore first, then the helper, both under `water_table == 1`)", loc=rs.loc(calls[0]))
+    chk.notes["C08.b_adjustment_helpers"] = sorted(helpers)
     # the two sites that bind th / thini produce fresh arrays
     sites = 0
     for roles in (init_roles(prog), step_roles(prog)):
@@ -362,6 +426,53 @@ def rule_c(chk, prog):
         chk.violation("C08.c", f"{cv.module}:{cv.qualname}", "[deepcopy(...) for ... in CropChoices]", "seasons no longer get their own copy of the crop", loc=cv.loc())
 
 
+def rule_i(chk, prog):
+    """C08.i (the latest harvest date of season k does not depend on season 0): when no harvest date is given, read_model_parameters derives ONE
+    month/day template from the days to maturity of the first season in the window; the season reset re-derives the days to maturity of a
+    thermal-time crop (CalendarType == 2) for every season. A later, cooler season that needs more days than the first is cut by the
+    template in the multi-season run, while the single-season run started on its planting date derives its own, later date. Reported on
+    today's tree as a known finding (F43): a per-season date would contradict C20's clause that stating the derived default explicitly - one
+    month/day - changes nothing."""
+    rmp = prog.find_func("read_model_parameters")
+    rs = prog.func(RESET_FN)
+    derived = [a for a in walk_no_nested(rmp.node) if isinstance(a, ast.Assign) and isinstance(a.targets[0], ast.Attribute) and a.targets[0].attr == "harvest_date"]
+    from ..rdef import flow_of, ENTRY
+    flow = flow_of(rmp)
+    uses_maturity = False
+    for a in derived:
+        nid = flow.stmt_node.get(id(a))
+        seen, work = set(), [x.id for x in ast.walk(a.value) if isinstance(x, ast.Name)]
+        while work:
+            nm = work.pop()
+            for d in flow.defs_reaching(nm, nid):
+                if d == ENTRY or (nm, d) in seen:
+                    continue
+                seen.add((nm, d))
+                da = flow.cfg.nodes[d].ast
+                v = getattr(da, "value", None)
+                if v is None:
+                    continue
+                if any(isinstance(x, ast.Attribute) and x.attr == "MaturityCD" for x in ast.walk(v)):
+                    uses_maturity = True
+                work += [x.id for x in ast.walk(v) if isinstance(x, ast.Name)]
+    rflow = flow_of(rs)
+    rederived = []
+    for a in walk_no_nested(rs.node):
+        if isinstance(a, ast.Assign) and isinstance(a.targets[0], ast.Attribute) and a.targets[0].attr == "MaturityCD":
+            nid = rflow.stmt_node.get(id(a))
+            deps_ = {(norm(rflow.cfg.nodes[t].ast), l) for t, l in rflow.cfg.transitive_control_deps(nid) if rflow.cfg.nodes[t].kind == "test"} if nid is not None else set()
+            if any("CalendarType == 2" in t and l is True for t, l in deps_):
+                rederived.append(a)
+    chk.fn(rmp.key); chk.fn(rs.key)
+    chk.notes["C08.i"] = {"template_from_MaturityCD": uses_maturity, "per_season_rederivations": len(rederived)}
+    if uses_maturity and rederived:
+        chk.violation("C08.i", f"{rmp.module}:{rmp.qualname}", "crop.harvest_date = month/day of planting + first season's MaturityCD + 30; MaturityCD re-derived per season (CalendarType 2)",
+                      "the derived latest harvest date of every season is the first season's: a later season of a thermal-time crop that needs more days is cut short in the "
+                      "multi-season run but not when run alone", loc=rmp.loc(derived[0]))
+    else:
+        chk.ok("C08.i", f"{rmp.module}:{rmp.qualname}", "derived harvest template vs per-season days to maturity", "no template from one season's maturity, or maturity not re-derived per season")
+
+
 def rule_h(chk, prog):
     """C08.h (a season starts from the ponding configured for the *season*): the ponding depth the reset restores when the off-season is skipped
     is computed from the in-season field management (access path PARAM.FieldMngt) - as the initial conditions do for a run that starts in
@@ -405,6 +516,7 @@ def run(chk, prog, tier):
     from ._siblings import co2_series_rules
     co2_series_rules(chk, prog, rule_lookup="C08.g")
     rule_h(chk, prog)
+    rule_i(chk, prog)
     chk.exhaustive = True
 
 
